@@ -486,6 +486,15 @@ func (conn *Conn) postConnect(ctx context.Context, start bool) {
 			conn.wg.Add(1)
 			go conn.ping(ctx)
 		}
+		// A cancelled context has to end the connection even when none of
+		// the goroutines above can notice it: send blocked in a socket
+		// write the peer never reads, the event loop blocked in a handler.
+		// Closing the socket gets them all going again.
+		sock := conn.sock
+		go func() {
+			<-ctx.Done()
+			conn.closeSock(sock)
+		}()
 	}
 }
 
